@@ -135,6 +135,9 @@ impl LabProp for P08 {
         if g.any_regex(&|r| matches!(r, Regex::Pred(Some(_)) | Regex::Return)) {
             return Err("has ?n or &");
         }
+        if !crossing_shapes(g).is_empty() {
+            return Err("node creation crossing a marker or an undoable attempt (not properly nested)");
+        }
         if g.rules.iter().any(|r| r.body.is_none()) || g.any_regex(&|r| matches!(r, Regex::Paren(None))) {
             return Err("empty rule body");
         }
